@@ -355,6 +355,14 @@ struct C07 : Property {
           if (dup) {
             w.count("probe.duplicate_con_response");
             if (d.handler) res.violate("R4.duplicate_con_redelivered", prev_same ? "adjacent_copy" : "after_other_con_response", what + " handed to the handler again" + (prev_same ? "" : "; another CON response was delivered between the copies"));
+            else {
+              // "acknowledged again when it is a duplicate": the copy of a response the handler accepted is answered by an ACK, not by
+              // the Reset that belongs to some other response the handler once refused
+              bool orig_accepted = false;
+              for (size_t j = 0; j < k; j++) { auto &o = cw.delivs[j]; if (o.type == 0 && o.mid == d.mid && o.token == d.token && o.handler) orig_accepted = !o.fail; }
+              if (orig_accepted && d.rst) res.violate("R4.rst_without_fail", "duplicate_of_accepted_response", what + ": this duplicate of a response the handler accepted was answered with RST instead of ACK");
+              if (orig_accepted && d.ack) w.count("probe.duplicate_con_response_acked_again");
+            }
           } else {
             if (d.fail && !d.rst) res.violate("R4.fail_without_rst", "con", what + ": handler returned FAIL but no RST was sent");
             if (!d.fail && d.handler && d.rst) res.violate("R4.rst_without_fail", "con", what + ": RST sent although the handler accepted it");
